@@ -229,13 +229,37 @@ func dataScales(xs, ys []float64) scales {
 	return s
 }
 
+// refineScales enlarges the scales of the data by the amplitude of the interpolant itself, sampled
+// at three points per interval: on clustered knots a spline swings far beyond the data (its
+// second derivative is of order slope/min dx and acts over the widest interval), and rounding is
+// relative to that amplitude. The scale never shrinks below that of the data.
+func refineScales(sc scales, f fitted, xs []float64) scales {
+	for i := 0; i+1 < len(xs); i++ {
+		dx := xs[i+1] - xs[i]
+		for _, fr := range []float64{0.25, 0.5, 0.75} {
+			x := xs[i] + fr*dx
+			if v := math.Abs(f.P(x)); v > sc.s0 && !math.IsInf(v, 0) {
+				sc.s0 = v
+			}
+			if f.D != nil {
+				if v := math.Abs(f.D(x)); v > sc.s1 && !math.IsInf(v, 0) {
+					sc.s1 = v
+				}
+			}
+		}
+	}
+	sc.s2 = sc.s1 / math.Min(1, sc.minDx)
+	sc.s3 = sc.s2 / math.Min(1, sc.minDx)
+	return sc
+}
+
 func genInterp(g *vlib.G) {
 	// All knot words up to the tier's length over both spacing alphabets; one case = one knot set,
 	// run through every interpolator and FitWithDerivatives.
 	for ai, ss := range knotAlphabets {
 		maxM := vlib.Pick(g, 10, 12)
 		if ai == 1 {
-			maxM = vlib.Pick(g, 9, 11)
+			maxM = vlib.Pick(g, 10, 11)
 		}
 		for m := 1; m <= maxM; m++ {
 			for code := 0; code < pow3(m); code++ {
@@ -333,7 +357,7 @@ func interpCase(t *vlib.T, me interpMethod, xs []float64, uniform bool) {
 		if t.Failed() {
 			return
 		}
-		sc := dataScales(xs, ds.ys)
+		sc := refineScales(dataScales(xs, ds.ys), f, xs)
 		checkKnotValues(t, me, f, xs, ds)
 		checkSmoothness(t, me, f, xs, ds, sc)
 		checkExtrapolation(t, me, f, xs, ds)
@@ -346,7 +370,7 @@ func interpCase(t *vlib.T, me interpMethod, xs []float64, uniform bool) {
 		switch {
 		case ds.deg >= 0 && ds.deg <= deg:
 			checkReproduction(t, me, f, xs, ds, sc, func(x float64) (float64, float64) { return powi(x, ds.deg), monomialDeriv(x, ds.deg, 1) })
-		case ds.deg == deg+1 && guard && n <= 6:
+		case ds.deg == deg+1 && guard && n <= 6 && sc.minDx >= 0.5: // the truncation term is invisible on clustered knots
 			if reproduces(f, xs, func(x float64) float64 { return powi(x, ds.deg) }, sc) {
 				t.Failf("vacuity guard: %s reproduces x^%d on %v", me.name, ds.deg, xs)
 			}
@@ -428,11 +452,12 @@ func checkSmoothness(t *vlib.T, me interpMethod, f fitted, xs []float64, ds data
 	}
 	for i := 1; i+1 < n; i++ {
 		xl := math.Nextafter(xs[i], math.Inf(-1))
-		if j := math.Abs(f.P(xl) - f.P(xs[i])); j > tolValue*sc.s0 {
+		ulp := xs[i] - xl // the left limit is taken one ulp left of the knot: the function moves by slope*ulp
+		if j := math.Abs(f.P(xl) - f.P(xs[i])); j > tolValue*sc.s0+4*sc.s1*ulp {
 			t.Failf("%s %s: value jump %g at knot %d (x=%v)", me.name, ds.name, j, i, xs[i])
 		}
 		if me.smooth >= 1 {
-			if j := math.Abs(f.D(xl) - f.D(xs[i])); j > tolDeriv*sc.s1 {
+			if j := math.Abs(f.D(xl) - f.D(xs[i])); j > tolDeriv*sc.s1+4*sc.s2*ulp {
 				t.Failf("%s %s: derivative jump %g at knot %d (x=%v): %v vs %v", me.name, ds.name, j, i, xs[i], f.D(xl), f.D(xs[i]))
 			}
 		}
@@ -593,7 +618,7 @@ func fitWithDerivativesCase(t *vlib.T, xs []float64) {
 		checkDerivativeConsistency(t, me, f, xs, ds, sc)
 		if d <= 3 {
 			checkReproduction(t, me, f, xs, ds, sc, func(x float64) (float64, float64) { return powi(x, d), monomialDeriv(x, d, 1) })
-		} else if n <= 6 && reproduces(f, xs, func(x float64) float64 { return powi(x, d) }, sc) {
+		} else if n <= 6 && sc.minDx >= 0.5 && reproduces(f, xs, func(x float64) float64 { return powi(x, d) }, sc) {
 			t.Failf("vacuity guard: FitWithDerivatives reproduces x^4 on %v", xs)
 		}
 		t.Count("fits", 1)
@@ -622,37 +647,38 @@ func fitWithDerivativesCase(t *vlib.T, xs []float64) {
 
 // ---- every interpolator over all short integer sequences ----
 
-// genInterpAllY: one case = (method, knot set); every y in {0,1,3}^n is fitted (refitting one
+// genInterpAllY: one case = one knot set; for every method every y in {0,1,3}^n is fitted (refitting one
 // object) and checked for exact knot values, the smoothness class, the boundary conditions,
 // Predict/PredictDerivative consistency and, for FritschButland, monotonicity.
 func genInterpAllY(g *vlib.G) {
 	for ai, ss := range knotAlphabets {
 		maxM := vlib.Pick(g, 6, 7)
 		if ai == 1 {
-			maxM = vlib.Pick(g, 5, 6)
+			maxM = vlib.Pick(g, 6, 7)
 		}
 		for m := 1; m <= maxM; m++ {
 			for code := 0; code < pow3(m); code++ {
 				_, name, _ := knotsFromCode(ss, code, m)
-				for _, me := range interpMethods() {
-					if m+1 < me.minN {
-						continue
+				ss, m, code := ss, m, code
+				// One case runs every method (a case per method would hand all fits of one method
+				// to the same shard: 8 methods, 16 shards).
+				g.Case("all-y "+ss.name+" "+name, func(t *vlib.T) {
+					xs, _, _ := knotsFromCode(ss, code, m)
+					t.Nontrivial()
+					t.Outcome(fmt.Sprintf("%s n=%d", ss.name, len(xs)))
+					for _, me := range interpMethods() {
+						if len(xs) >= me.minN && !t.Failed() {
+							allYCase(t, me, xs)
+						}
 					}
-					ss, m, code, me := ss, m, code, me
-					g.Case(me.name+" "+ss.name+" "+name, func(t *vlib.T) {
-						xs, _, _ := knotsFromCode(ss, code, m)
-						allYCase(t, me, xs)
-					})
-				}
+				})
 			}
 		}
 	}
 }
 
 func allYCase(t *vlib.T, me interpMethod, xs []float64) {
-	t.Nontrivial()
 	n := len(xs)
-	t.Outcome(fmt.Sprintf("%s n=%d", me.name, n))
 	vals := []float64{0, 1, 3}
 	ys := make([]float64, n)
 	radices := make([]int, n)
@@ -671,7 +697,7 @@ func allYCase(t *vlib.T, me interpMethod, xs []float64) {
 			t.Failf("%s.Fit(%v, %v) returned error %v", me.name, xs, ys, err)
 			return false
 		}
-		sc := dataScales(xs, ys)
+		sc := refineScales(dataScales(xs, ys), f, xs)
 		checkKnotValues(t, me, f, xs, ds)
 		checkSmoothness(t, me, f, xs, ds, sc)
 		if f.D != nil {
